@@ -6,6 +6,8 @@
 //!                        backend attached to the compiler; call log, scratch directory, open descriptors
 //!   c20 gate N        -> JSON lines: exported trees with the implementation's is_pure / is_min_purity(Impure) /
 //!                        is_limit_bounded, for the correspondence with coq/Model/Gate.v
+//!   c20 session N DIR -> JSON lines: ONE compiler reused over snippets (failing ones first), compared after every
+//!                        snippet with a compiler that saw only the successful ones; saved state must be restored
 //!   c20 one MODE SRC  -> compile one program (replay / experiments)
 use std::any::Any;
 use std::borrow::Cow;
@@ -1054,6 +1056,332 @@ fn compile_search(n: usize, scratch: &str) {
     let _ = std::fs::remove_dir_all(&scr_path);
 }
 
+
+// ------------------------------------------------------------------ sessions: ONE compiler reused over snippets
+
+/// snippets that fail to compile, at various points: (class, source)
+fn failing_snippets() -> Vec<(String, String)> {
+    let mut v: Vec<(String, String)> = Vec::new();
+    // a function operand whose compilation returns Err, in the operand position of each modifier,
+    // bare and parenthesised
+    let bad_ops: [(&str, &str); 5] = [
+        ("unknown-macro", "Tbl!+"),
+        ("unknown-ident", "Foo"),
+        ("comptime-args", "comptime(+)"),
+        ("unknown-macro-nested", "⊙Tbl!+"),
+        ("bad-inverse", "°(⊂⊙(⊂⊙⊂))"),
+    ];
+    let mods: [(&str, &str, &str); 30] = [
+        ("fill", "⬚0 ", " 1_2 [3]"),
+        ("fill-sided", "⬚⌞0 ", " 1_2 [3]"),
+        ("fill-nested", "⬚0 ⬚1 ", " 1_2 [3]"),
+        ("fill-in-try", "⍣(⬚0 ", ")0 1_2 [3]"),
+        ("try-in-fill", "⬚0 ⍣", "∘ 1_2 [3]"),
+        ("fill-value", "⬚", "+ 1_2 [3]"),
+        ("under-f", "⍜", "∘ 1"),
+        ("under-g", "⍜∘", " 1"),
+        ("try", "⍣", "0 1"),
+        ("try-handler", "⍣∘", " 1"),
+        ("both", "∩", " 1 2"),
+        ("rows", "≡", " [1 2]"),
+        ("each", "∵", " [1 2]"),
+        ("dip", "⊙", " 1 2"),
+        ("on", "⟜", " 1"),
+        ("by", "⊸", " 1"),
+        ("reduce", "/", " [1 2]"),
+        ("scan", "\\", " [1 2]"),
+        ("table", "⊞", " [1] [2]"),
+        ("repeat", "⍥", "2 1"),
+        ("do", "⍢", "∘ 1"),
+        ("un", "°", " 1"),
+        ("anti", "⌝", " 1 2"),
+        ("fork", "⊃", "∘ 1"),
+        ("bracket", "⊓", "∘ 1 2"),
+        ("switch", "⨬(∘|", ") 0 1"),
+        ("memo", "memo", " 1"),
+        ("comptime", "comptime", " "),
+        ("obverse", "⌅(∘|", ") 1"),
+        ("spawn", "spawn", " 1"),
+    ];
+    for (ml, pre, post) in mods {
+        for (ol, op) in bad_ops {
+            v.push((format!("{ml}/{ol}/bare"), format!("{pre}{op}{post}")));
+            v.push((format!("{ml}/{ol}/paren"), format!("{pre}({op}){post}")));
+        }
+    }
+    let misc: [(&str, &str); 14] = [
+        ("signature/switch-branches", "⨬(+|¯) 0 1 2"),
+        ("signature/repeat", "⍥(1 2)∞"),
+        ("signature/fill-noargs", "⬚(+)+ 1 2"),
+        ("signature/do", "⍢(1|1)"),
+        ("unbalanced/paren", "(+ 1"),
+        ("unbalanced/bracket", "[1 2"),
+        ("unbalanced/string", "\"abc"),
+        ("unbalanced/fill-paren", "⬚0(+ Tbl! 1_2 [3]"),
+        ("unknown-ident-toplevel", "Foo 1"),
+        ("code-macro-too-deep", "R! ←^ \"R!+\" ◌\nR!+ 1 2"),
+        ("index-macro-too-deep", "M! ← M!^0\nM!+ 1 2"),
+        ("code-macro-error", "C! ←^ ⍤\"no\"0 ◌\nC!+ 1 2"),
+        ("code-macro-bad-output", "C! ←^ \"(\" ◌\nC!+ 1 2"),
+        ("index-macro-unknown-inside", "M! ← ^0 Foo\nM!+ 1 2"),
+    ];
+    for (l, src) in misc {
+        v.push((l.to_string(), src.to_string()));
+    }
+    v
+}
+
+/// later snippets: read-only / effectful system calls with constant arguments, and pure probes
+fn probe_snippets(scr: &str) -> Vec<(String, String)> {
+    let raw: [(&str, &str); 14] = [
+        ("freadstr", "&fras \"SCR/in.txt\""),
+        ("freadbytes", "&frab \"SCR/in.txt\""),
+        ("flistdir", "&fld \"SCR\""),
+        ("fexists", "&fe \"SCR/in.txt\""),
+        ("fisfile", "&fif \"SCR/in.txt\""),
+        ("var", "&var \"HOME\""),
+        ("now", "now"),
+        ("clipboard", "&clip"),
+        ("samplerate", "&asr"),
+        ("rand", "⚂"),
+        ("pure-line", "+1 2"),
+        ("pure-function", "F ← +1 2\nF"),
+        ("freadstr-mixed", "⊂ &fras \"SCR/in.txt\" \"x\""),
+        ("print", "&p \"x\""),
+    ];
+    raw.iter().map(|(l, s)| (l.to_string(), s.replace("SCR", scr))).collect()
+}
+
+fn mode_name(m: PreEvalMode) -> &'static str {
+    match m {
+        PreEvalMode::Lazy => "Lazy",
+        PreEvalMode::Line => "Line",
+        PreEvalMode::Normal => "Normal",
+        PreEvalMode::Lsp => "Lsp",
+    }
+}
+
+fn new_session_compiler(mode: PreEvalMode) -> (Compiler, Log) {
+    let (rec, log) = Rec::new(false);
+    let mut c = Compiler::with_backend(rec);
+    c.pre_eval_mode(mode);
+    c.print_diagnostics(false);
+    (c, log)
+}
+
+/// what a snippet added: the nodes appended to the root and the functions appended to the table
+/// (a rejected snippet may leave nodes of its own in the root; they are not the later snippet's)
+fn asm_delta(c: &Compiler, root_before: usize, funcs_before: usize) -> String {
+    let a = c.assembly();
+    let rb = root_before.min(a.root.len());
+    let fb = funcs_before.min(a.functions.len());
+    let rs: Vec<String> = a.root[rb..].iter().map(|n| format!("{n:?}")).collect();
+    let fs: Vec<String> = a.functions.iter().skip(fb).map(|f| format!("{f:?}")).collect();
+    // binding indices depend on the bindings rejected snippets left behind; clock and random values differ per run
+    let text = format!("{} || {}", rs.join(", "), fs.join(" | "));
+    let mut out = String::new();
+    let mut prev_digit = false;
+    for ch in text.chars() {
+        if ch.is_ascii_digit() {
+            if !prev_digit {
+                out.push('#');
+            }
+            prev_digit = true;
+        } else if ch == '.' && prev_digit {
+        } else {
+            out.push(ch);
+            prev_digit = false;
+        }
+    }
+    out
+}
+
+fn sessions(n: usize, scratch: &str) {
+    uiua::verif::c12::set_bypass(uiua::verif::c12::PURITY | uiua::verif::c12::PRE_EVAL);
+    let mut rng = Rng::new(seed_from_env() ^ 0x5e55);
+    let scr_path = PathBuf::from(scratch);
+    prepare_scratch(&scr_path);
+    let scr = scr_path.display().to_string();
+    let fails = failing_snippets();
+    let probes = probe_snippets(&scr);
+    // the plan: every failing snippet alone in front of all probes, default mode first; then
+    // random sequences of 2-3 failing snippets interleaved with probes
+    let mode_order = [PreEvalMode::Normal, PreEvalMode::Lazy, PreEvalMode::Line, PreEvalMode::Lsp];
+    let mut plan: Vec<(PreEvalMode, Vec<usize>)> = Vec::new();
+    for m in mode_order {
+        // the fill / try / macro classes first (they save and restore compiler state)
+        let mut idx: Vec<usize> = (0..fails.len()).collect();
+        idx.sort_by_key(|i| {
+            let l = &fails[*i].0;
+            if l.contains("fill") || l.contains("try") || l.contains("macro") || l.contains("comptime") { 0 } else { 1 }
+        });
+        for i in idx {
+            plan.push((m, vec![i]));
+        }
+    }
+    // a leaked macro depth followed by a macro recursion that is too deep (reaches the depth check of `quote`)
+    let find = |l: &str| fails.iter().position(|f| f.0 == l).unwrap_or(0);
+    let two_step = vec![find("code-macro-bad-output"), find("code-macro-too-deep")];
+    plan.insert(0, (PreEvalMode::Normal, two_step.clone()));
+    plan.insert(1, (PreEvalMode::Lsp, two_step));
+    while plan.len() < n {
+        let m = *rng.pick(&mode_order);
+        let k = 2 + rng.below(2);
+        plan.push((m, (0..k).map(|_| rng.below(fails.len())).collect()));
+    }
+    plan.truncate(n.max(1));
+    let snap0 = dir_snapshot(&scr_path);
+    let fd0 = fd_count();
+    let mut reported: BTreeSet<String> = BTreeSet::new();
+    let (mut nsess, mut steps, mut failed_steps, mut unexpected_ok, mut compares) = (0usize, 0usize, 0usize, 0usize, 0usize);
+    let mut by_class: BTreeMap<String, usize> = BTreeMap::new();
+    let mut emit = |reported: &mut BTreeSet<String>, key: String, mode: &str, history: &[String], snippet: &str, detail: String| {
+        if reported.insert(format!("{key}|{mode}")) {
+            println!(
+                "{{\"k\":\"violation\",\"key\":{},\"ctx\":\"session\",\"snippet\":{},\"mode\":\"{mode}\",\"methods\":[],\"calls\":{},\"program\":{},\"result\":\"\"}}",
+                jstr(&key),
+                jstr(snippet),
+                jstr(&detail),
+                jstr(&history.join("\n-----\n"))
+            );
+        }
+    };
+    for (mode, fidx) in plan {
+        nsess += 1;
+        let mname = mode_name(mode);
+        let (mut comp, log) = new_session_compiler(mode);
+        let (mut fresh, _flog) = new_session_compiler(mode);
+        let mut good: Vec<String> = Vec::new(); // the snippets that compiled, in order
+        let mut history: Vec<String> = Vec::new();
+        // both compilers start with the experimental header (a successful snippet)
+        let _ = comp.load_str("# Experimental!\n");
+        let _ = fresh.load_str("# Experimental!\n");
+        good.push("# Experimental!\n".to_string());
+        // order of steps: failing snippets interleaved with the probes
+        let mut seq: Vec<(bool, String, String)> = Vec::new();
+        let mut pi = 0usize;
+        for (j, fi) in fidx.iter().enumerate() {
+            seq.push((true, fails[*fi].0.clone(), fails[*fi].1.clone()));
+            if j + 1 < fidx.len() {
+                for _ in 0..2 {
+                    let p = &probes[pi % probes.len()];
+                    pi += 1;
+                    seq.push((false, p.0.clone(), p.1.clone()));
+                }
+            }
+        }
+        for k in 0..probes.len() {
+            let p = &probes[(pi + k) % probes.len()];
+            seq.push((false, p.0.clone(), p.1.clone()));
+        }
+        let first_class = fails[fidx[0]].0.clone();
+        let class0: String = first_class.split('/').next().unwrap_or("").to_string();
+        *by_class.entry(class0).or_default() += 1;
+        let classes: Vec<String> = fidx.iter().map(|i| fails[*i].0.clone()).collect();
+        let cls = classes.join("+");
+        for (is_fail, label, src) in seq {
+            steps += 1;
+            take_log(&log);
+            let fd_before = fd_count();
+            let (rb, fb) = (comp.assembly().root.len(), comp.assembly().functions.len());
+            let (frb, ffb) = (fresh.assembly().root.len(), fresh.assembly().functions.len());
+            let st_before = comp.verif_session_state();
+            let res = catch(|| comp.load_str(&src).map(|_| ()).map_err(|e| e.to_string()));
+            let ok = matches!(res, Ok(Ok(())));
+            history.push(format!("{} [{}]", src, if ok { "ok" } else { "rejected" }));
+            if is_fail {
+                if ok {
+                    unexpected_ok += 1;
+                } else {
+                    failed_steps += 1;
+                }
+            }
+            if let Err(p) = &res {
+                emit(&mut reported, format!("session/compiler-panicked:{label}"), mname, &history, &src, p.clone());
+                break;
+            }
+            // (1) the saved state is restored on the Ok and on the Err path
+            let (m2, in_fill, in_try, depth) = comp.verif_session_state();
+            if is_fail && fidx.len() <= 2 {
+                println!(
+                    "{{\"k\":\"state\",\"class\":{},\"ok\":{ok},\"before\":[\"{}\",{},{},{}],\"after\":[\"{}\",{in_fill},{in_try},{depth}],\"src\":{}}}",
+                    jstr(&label), mode_name(st_before.0), st_before.1, st_before.2, st_before.3, mode_name(m2), jstr(&src)
+                );
+            }
+            if m2 != mode {
+                emit(&mut reported, format!("session/state-not-restored:pre_eval_mode:{cls}"), mname, &history, &src,
+                     format!("pre_eval_mode is {} after the snippet, the embedder set {mname}", mode_name(m2)));
+            }
+            if in_fill {
+                emit(&mut reported, format!("session/state-not-restored:in_fill:{cls}"), mname, &history, &src, "in_fill stays true".into());
+            }
+            if in_try {
+                emit(&mut reported, format!("session/state-not-restored:in_try:{cls}"), mname, &history, &src, "in_try stays true".into());
+            }
+            if depth != 0 {
+                emit(&mut reported, format!("session/state-not-restored:comptime_depth:{cls}"), mname, &history, &src, format!("comptime_depth stays {depth}"));
+            }
+            // (2) no backend call while compiling
+            let l = take_log(&log);
+            let bad: Vec<&(String, String)> = l
+                .iter()
+                .filter(|(m, _)| !AMBIENT.contains(&m.as_str()) && m != "set_output_enabled")
+                .filter(|(m, _)| !(mname == "Lsp" && READ_ONLY.contains(&m.as_str())))
+                .filter(|_| !label.starts_with("code-macro"))
+                .collect();
+            if !bad.is_empty() {
+                emit(&mut reported, format!("session/compile-effect:{label}"), mname, &history, &src, format!("{:?}", bad.iter().take(4).collect::<Vec<_>>()));
+            }
+            // (3) no native effect
+            let text = asm_delta(&comp, rb, fb);
+            if mname != "Lsp" && text.contains("hello file") {
+                emit(&mut reported, format!("session/host-file-read-at-compile-time:{cls}"), mname, &history, &src,
+                     format!("the assembly holds the real file's contents, the supplied backend saw no call: {}", text.chars().take(200).collect::<String>()));
+            }
+            if fd_count() > fd_before {
+                emit(&mut reported, format!("session/descriptor-opened:{cls}"), mname, &history, &src, format!("{fd_before} -> {}", fd_count()));
+            }
+            // (4) the same tree as a compiler that saw only the successful snippets
+            if ok {
+                good.push(src.clone());
+                let fr = catch(|| fresh.load_str(&src).map(|_| ()).map_err(|e| e.to_string()));
+                if !matches!(fr, Ok(Ok(()))) {
+                    // the reference compiler must not see a failure: rebuild it from the successful snippets
+                    let (f2, _) = new_session_compiler(mode);
+                    fresh = f2;
+                    let mut all_ok = true;
+                    for g in &good {
+                        all_ok &= matches!(catch(|| fresh.load_str(g).map(|_| ()).map_err(|e| e.to_string())), Ok(Ok(())));
+                    }
+                    if !all_ok {
+                        emit(&mut reported, format!("session/accepts-what-a-fresh-compiler-rejects:{label}:{cls}"), mname, &history, &src, format!("{fr:?}"));
+                        break;
+                    }
+                }
+                compares += 1;
+                let ft = asm_delta(&fresh, frb, ffb);
+                if ft != text {
+                    emit(&mut reported, format!("session/compiles-differently-from-fresh:{label}:{cls}"), mname, &history, &src,
+                         format!("reused: {} | fresh: {}", text.chars().take(300).collect::<String>(), ft.chars().take(300).collect::<String>()));
+                }
+            }
+        }
+    }
+    let snap1 = dir_snapshot(&scr_path);
+    if snap0 != snap1 {
+        println!("{{\"k\":\"violation\",\"key\":\"session/scratch-directory-changed\",\"ctx\":\"session\",\"snippet\":\"\",\"mode\":\"all\",\"methods\":[],\"calls\":\"\",\"program\":\"\",\"result\":\"\"}}");
+    }
+    let cl: Vec<String> = by_class.iter().map(|(k, v)| format!("{}:{}", jstr(k), v)).collect();
+    println!(
+        "{{\"k\":\"summary\",\"sessions\":{nsess},\"steps\":{steps},\"failing_snippets\":{},\"probes\":{},\"rejected_steps\":{failed_steps},\"failing_snippets_that_compiled\":{unexpected_ok},\"compared_with_fresh\":{compares},\"classes\":{{{}}},\"fd_before\":{fd0},\"fd_after\":{}}}",
+        fails.len(),
+        probes.len(),
+        cl.join(","),
+        fd_count()
+    );
+    let _ = std::fs::remove_dir_all(&scr_path);
+}
+
 // ------------------------------------------------------------------ the gate functions on exported trees
 
 fn collect_nodes<'a>(n: &'a Node, out: &mut Vec<&'a Node>, budget: &mut usize) {
@@ -1259,6 +1587,22 @@ fn main() {
         }
         "compile" => compile_search(n, &scratch),
         "gate" => gate(n, &scratch),
+        "session" => sessions(n, &scratch),
+        "leak-demo" => {
+            // consequence of the comptime_depth leak: after N rejected code-macro snippets a valid macro is refused
+            let (mut comp, _log) = new_session_compiler(PreEvalMode::Normal);
+            let before = catch(|| comp.load_str("D! ← ^0 ^0\nD!(+1) 1").map(|_| ()).map_err(|e| e.to_string()));
+            for _ in 0..n {
+                let _ = comp.load_str("C! ←^ \"(\" ◌\nC!+ 1 2");
+            }
+            let after = catch(|| comp.load_str("E! ← ^0 ^0\nE!(+1) 1").map(|_| ()).map_err(|e| e.to_string()));
+            println!(
+                "{{\"k\":\"leak-demo\",\"rejected_snippets\":{n},\"valid_macro_before\":{},\"valid_macro_after\":{},\"depth\":{}}}",
+                jstr(&format!("{before:?}")),
+                jstr(&format!("{after:?}")),
+                comp.verif_session_state().3
+            );
+        }
         "safe-run" => {
             // run a program under SafeSys; stdin of this process is whatever the caller piped in
             let src = args.get(2).cloned().unwrap_or_default();
